@@ -473,6 +473,28 @@ def gen_content(rng, tag):
     return b
 
 
+SWEEP_SET = {'quick': 'a file / archive member / nested-archive member of just over 10 000 000 bytes (the readers\' default size limit) with the limit raised to 25 000 000, and with the default limit',
+             'thorough': 'same'}
+
+
+def sweep(tier):
+    out = []
+    body = _hex(b'BIG-MIB DEFINITIONS ::= BEGIN\nEND\n')
+    for kind, path, padkind in (('dir', 'BIG-MIB.mib', None), ('dir', 'sub/BIG-MIB.txt', None), ('zip', 'BIG-MIB.mib', None), ('zip', 'inner.zip!/d/BIG-MIB', 'random')):
+        for cap in (25000000, None):
+            e = {'path': path, 'hex': body, 'mtime': SEASONS[0], 'pad': 10000100}
+            if padkind:
+                e['padkind'] = padkind
+            scn = {'kind': kind, 'request': 'BIG-MIB', 'options': {}, 'tree': [e, {'path': 'OTHER-MIB.txt', 'hex': _hex(b'OTHER-MIB DEFINITIONS ::= BEGIN\nEND\n'), 'mtime': SEASONS[0]}],
+                   'listing_seed': 7, 'url_style': 'bare'}
+            if kind == 'zip':
+                scn['zipext'] = '.zip'
+            if cap:
+                scn['maxMibSize'] = cap
+            out.append(scn)
+    return out
+
+
 def generate(rng, tier):
     if rng.random() < 0.06:
         return {'mode': 'url', 'url': rng.randrange(len(URLS)), 'options': rng.choice([{}, {'fuzzyMatching': False}, {'lowcaseMatching': False}])}
